@@ -27,7 +27,8 @@ EXPLANATION = (
     " (R6) the O_EXCL existence lock (not released when its holder dies) is reached only when neither fcntl nor msvcrt exists; (R7) an unparseable in-flight marker left by a dead writer falls back instead of aborting every later collection; (R8) the 'pointer moved' conflict of the CAS path is raised only on a parsed pointer (a creator that died before the first pointer write does not wedge the table)."
     ' (R9/R10) write-once namespace and who-may-delete censuses (shared with C09.R1/R3): every file a dying process can leave is the pointer, a marker or a fresh name, and recovery / maintenance code never deletes on its own judgement.'
     ' (R13) storage effects are synchronous (C16.R9).'
-    " (R14) lock ages are UTC-correct (C20.R11, interprocedural); (R15) the fallback lock's age is wall-clock now minus mtime (C19.R11).")
+    " (R14) lock ages are UTC-correct (C20.R11, interprocedural); (R15) the fallback lock's age is wall-clock now minus mtime (C19.R11)."
+    " (R16) version numbers are compared, never truth-tested (the pointer to v0 is honoured); (R17) a dead holder's S3 lock can be taken over: the lease test compares age and lease in one unit (C19.R3).")
 NOT_DECIDED = ("the reopen-and-compare statement over every crash point; atomicity of os.replace / PUT; that a "
                "later collection removes only leftovers")
 
